@@ -193,7 +193,7 @@ func r3C06(c *Ctx) {
 func r3C09(c *Ctx) {
 	p := c.Prog
 	c.Rule("R9.2c", "update validators read the stored phase before any return", 2)
-	c.Rule("R9.4", "possibly-nil finder results are dereferenced only under a nil check", 5)
+	c.Rule("R9.4", "possibly-nil finder results are dereferenced only under a nil check", 3)
 	for _, name := range []string{
 		"pkg/webhook/rollout/validating.RolloutCreateUpdateHandler.validateRolloutUpdate",
 		"pkg/webhook/rollout/validating.RolloutCreateUpdateHandler.validateV1alpha1RolloutUpdate",
